@@ -191,6 +191,20 @@ func (c *corpus) gen(src *sim.Src, ntok, brk int) (string, []itemSpan) {
 	return out, spans
 }
 
+// variant returns the input with one of its first items replaced by another item of the
+// corpus: a second input that shares offsets (and a prefix) with the first but is parsed
+// differently from some point on.
+func (c *corpus) variant(src *sim.Src, in string, spans []itemSpan) string {
+	if len(spans) == 0 || len(c.items) == 0 {
+		return in
+	}
+	k := src.Draw(min(len(spans), 64))
+	if src.Chance(1, 2) {
+		k = src.Draw(min(len(spans), 4))
+	}
+	return in[:spans[k].off] + c.items[src.Draw(len(c.items))] + in[spans[k].end:]
+}
+
 // plain adapts a generator without item structure.
 func plain(g func(src *sim.Src, ntok int) string) func(src *sim.Src, ntok, brk int) (string, []itemSpan) {
 	return func(src *sim.Src, ntok, brk int) (string, []itemSpan) {
@@ -513,6 +527,8 @@ var jsCorpus = &corpus{
 		"h<A, B>(a, b);",
 		"x = y as T;",
 		"x = (a) < b;",
+		"x = (a) => b;",
+		"x = (a) + 1;",
 		"x = (a, b);",
 		"x = (a + b) * (c - d);",
 		"if (a) { b(); } else { c(); }",
@@ -742,14 +758,14 @@ func initTargets() {
 	droppedItems["test"] = testCorpus.validate(testTokenEnds, okWith(testParse))
 
 	if len(tmCorpus.items) > 0 {
-		register(&Target{Name: "tm.Parser.ParseFile", NewSession: tmSession, Parse: tmParseWith(false), TokenEnds: tmTokenEnds, Gen: tmCorpus.gen, HasEH: true, Events: true, Weight: 10})
+		register(&Target{Name: "tm.Parser.ParseFile", NewSession: tmSession, Parse: tmParseWith(false), TokenEnds: tmTokenEnds, Gen: tmCorpus.gen, Variant: tmCorpus.variant, HasEH: true, Events: true, Weight: 10})
 		if okWith(tmParseWith(true))(genTmNonterm(sim.NewSearch(1, 1), 60)) {
 			register(&Target{Name: "tm.Parser.ParseNonterm", Parse: tmParseWith(true), TokenEnds: tmTokenEnds, Gen: plain(genTmNonterm), HasEH: true, Events: true, Weight: 4})
 		}
 		register(&Target{Name: "tm/ast.Parse", Parse: tmParseAST, TokenEnds: tmTokenEnds, Gen: tmCorpus.gen, HasEH: true, Weight: 5})
 	}
 	if len(jsCorpus.items) > 0 {
-		register(&Target{Name: "js.Parser.ParseModule", NewSession: jsSession, Parse: jsParse, TokenEnds: jsTokenEnds, Gen: jsCorpus.gen, HasEH: true, Events: true, Lookaheads: true, Weight: 24})
+		register(&Target{Name: "js.Parser.ParseModule", NewSession: jsSession, Parse: jsParse, TokenEnds: jsTokenEnds, Gen: jsCorpus.gen, Variant: jsCorpus.variant, HasEH: true, Events: true, Lookaheads: true, Weight: 24})
 		register(&Target{Name: "js/ast.Parse", Parse: jsParseAST, TokenEnds: jsTokenEnds, Gen: jsCorpus.gen, HasEH: true, Lookaheads: true, Weight: 8})
 	}
 	if len(jsExprCorpus.items) > 0 {
@@ -762,7 +778,7 @@ func initTargets() {
 		register(&Target{Name: "js.Parser.ParseNamespaceNameSnippet", Parse: jsParseEntry(1), TokenEnds: jsTokenEnds, Gen: jsNsCorpus.gen, HasEH: true, Events: true, Weight: 2})
 	}
 	if len(testCorpus.items) > 0 {
-		register(&Target{Name: "test.Parser.ParseTest", NewSession: testSession, Parse: testParse, TokenEnds: testTokenEnds, Gen: testCorpus.gen, Events: true, Lookaheads: true, Weight: 14})
+		register(&Target{Name: "test.Parser.ParseTest", NewSession: testSession, Parse: testParse, TokenEnds: testTokenEnds, Gen: testCorpus.gen, Variant: testCorpus.variant, Events: true, Lookaheads: true, Weight: 14})
 		register(&Target{Name: "test.Parser.ParseDecl1", Parse: testParseDecl1, TokenEnds: testTokenEnds, Gen: plain(genDecl1), Events: true, Weight: 4})
 	}
 	initGenerated()
@@ -788,5 +804,5 @@ func registerGenerated(name string, parse func(ctx context.Context, in string, e
 	if len(c.items) == 0 {
 		return
 	}
-	register(&Target{Name: name, NewSession: sess, Parse: p, TokenEnds: ends, Gen: c.gen, HasEH: hasEH, Events: true, Lookaheads: lookaheads, Weight: 9})
+	register(&Target{Name: name, NewSession: sess, Parse: p, TokenEnds: ends, Gen: c.gen, Variant: c.variant, HasEH: hasEH, Events: true, Lookaheads: lookaheads, Weight: 9})
 }
